@@ -64,3 +64,11 @@ Proof. vm_compute. repeat split; reflexivity. Qed.
 Example c06_deep_nesting_is_an_error :
   parse_frame (fun _ => None) max_levels (concat (repeat (bs "*1" ++ crlf) 1000)) = Err.
 Proof. vm_compute. reflexivity. Qed.
+
+(** table regenerated from parser.rs: every recursive call of an aggregate parser (array
+    element, map key, map value, set member) passes depth + 1, so the nesting limit bounds
+    the recursion through every position *)
+Theorem c06_every_recursion_counts_depth :
+  length parser_depth_args = 4%nat /\
+  forallb (fun p => beq (snd p) (bs "depth + 1")) parser_depth_args = true.
+Proof. split; vm_compute; reflexivity. Qed.
